@@ -117,8 +117,54 @@ def run_interleaved(sh, res):
         flush(rows, exps, res, sh['lang'], 'like')
 
 
+def run_literal(sh, res):
+    """the pattern written as a string literal inside the query text (the documented form `... where like(a1, 'foo%bar')`): the engine substitutes the user's
+    expression into its generated code, which must not interpret anything in it ($-patterns of String.replace, quotes, backslashes)"""
+    from vf import drive, qcheck, refql, js
+    toks = sh['tokens']
+    pats = [''.join(t) for n in range(0, 3) for t in itertools.product(toks, repeat=n)][sh['lo']:sh['hi']]
+    batch, meta = [], []
+    for pi, p in enumerate(pats):
+        alpha = sorted(set([c for c in p if c not in '%_'] + ['a', '$']))[:5]
+        texts = [''.join(t) for n in range(0, 3) for t in itertools.product(alpha, repeat=n)]
+        if p.replace('%', '').replace('_', '') and p.replace('%', '').replace('_', '') not in texts:
+            texts.append(p.replace('%', 'a').replace('_', '$'))
+            texts.append(p.replace('%', '').replace('_', 'a'))
+        quote = "'" if pi % 2 == 0 else '"'
+        text_q = 'select a1 where like(a1, %s)' % refql.lit_text(p, quote)
+        exp = [[t] for t in texts if reflike.like(t, p)]
+        A = [[t] for t in texts]
+        if sh['lang'] == 'py':
+            got = drive.run_py(text_q, qcheck.copy_table(A), None, None, None)
+            judge_literal(res, 'py', text_q, p, A, exp, got)
+        else:
+            batch.append({'op': 'query', 'query': text_q, 'input': A})
+            meta.append((text_q, p, A, exp))
+    if sh['lang'] == 'js' and batch and js.available():
+        for (text_q, p, A, exp), o in zip(meta, js.run_batch(batch)):
+            judge_literal(res, 'js', text_q, p, A, exp, qcheck.js_got(o))
+
+
+def judge_literal(res, lang, text_q, p, A, exp, got):
+    res.evaluations += 1
+    res.traces += 1
+    res.states += len(A)
+    res.transitions += len(A)
+    if got['error'] is not None or got['records'] != exp:
+        res.violation(('js:' if lang == 'js' else '') + 'like-literal-pattern-mismatch', {'lang': lang, 'query': text_q, 'pattern': p, 'texts': [r[0] for r in A]}, exp, {'records': got['records'], 'error': got['error']})
+    else:
+        res.feat('literal_pattern_queries_' + lang)
+        res.feat('match', len(exp))
+        res.feat('nomatch', len(A) - len(exp))
+        if any(c in p for c in META) or '$' in p:
+            res.nontrivial += 1
+
+
 def run_shard(sh):
     res = core.Result()
+    if sh['mode'] == 'literal':
+        run_literal(sh, res)
+        return res
     if sh['mode'] == 'interleaved':
         run_interleaved(sh, res)
         return res
@@ -172,6 +218,11 @@ def build(tier):
     for lang in ('py', 'js'):
         for lo, hi in core.chunks(len(ipats), 8):
             shards.append({'lang': lang, 'mode': 'interleaved', 'patterns': ipats[lo:hi], 'texts': itexts})
+    ltoks = ['a', '%', '_', '$$', '$&', "$'", '$`', '$', "'", '"', '\\', '.', '$1', '${a1}']
+    nl = 1 + len(ltoks) + len(ltoks) ** 2
+    for lang in ('py', 'js'):
+        for lo, hi in core.chunks(nl, 8):
+            shards.append({'lang': lang, 'mode': 'literal', 'tokens': ltoks, 'lo': lo, 'hi': hi})
     for plan in plans:
         lang, mode, pats, tmax = plan[:4]
         per = max(1, len(pats) // 48)
@@ -193,11 +244,11 @@ def main(tier, seed):
     return core.finish(PID, tier, seed, res, t0,
         rule='for every pattern up to the bound over the 14-symbol alphabet, the complete prefix tree of texts (full alphabet, or for the deeper '
              'slices the alphabet {pattern symbols, a, b, one metacharacter absent from the pattern}); states = (pattern, text) nodes with the reference '
-             'automaton state stepped along each edge; non-trivial = pattern contains a regular-expression metacharacter',
+             'automaton state stepped along each edge; the pattern also written as a string literal inside the query text (all sequences of <= 2 tokens incl. $$, $&, $\', $`, quotes, backslash; both engines); non-trivial = pattern contains a regular-expression metacharacter',
         assumptions=['single-line texts only (the quantifier says so)', 'for the reduced slices: the reference semantics cannot distinguish characters absent from the pattern; '
                      'one absent metacharacter is kept so that an implementation that does distinguish it is still seen'],
         extra={'plans': [{'lang': pl[0], 'mode': pl[1], 'patterns': len(pl[2]), 'text_maxlen': pl[3]} for pl in plans]},
-        min_features={'match': 10000, 'nomatch': 10000})
+        min_features={'match': 10000, 'nomatch': 10000, 'literal_pattern_queries_py': 150, 'literal_pattern_queries_js': 150})
 
 
 def replay(rep):
